@@ -33,7 +33,7 @@ const char * const engine_props[] = { "C12", "C13", "C14", NULL };
 enum {
 	N_OPS, N_EA, N_EQ, N_MAP, N_POOL, N_HEAP, N_TQ, N_OVERFLOW, N_REFUSED, N_MOVED, N_F_ALLOC, N_OPFAIL,
 	N_EXPORT, N_EQ_COMPACT, N_MAP_FRONT, N_MAP_MID, N_MAP_UNKNOWN, N_POOL_GROW, N_POOL_REUSE, N_HEAP_CREATE,
-	N_HEAP_TIES, N_HEAP_BYHANDLE, N_TQ_TIES, N_TQ_NULL, N_BIG, N_MIXED, N_SHRINK_REALLOC, N_DRAINED
+	N_HEAP_TIES, N_HEAP_BYHANDLE, N_TQ_TIES, N_TQ_NULL, N_BIG, N_MIXED, N_SHRINK_REALLOC, N_DRAINED, N_ITER, N_ITER_SHRINK
 };
 const char * const engine_counters[] = {
 	"operations", "runs_elasticarray", "runs_elasticqueue", "runs_seqptrmap", "runs_mpool", "runs_ptrheap",
@@ -42,7 +42,7 @@ const char * const engine_counters[] = {
 	"probe_map_delete_front", "probe_map_delete_middle", "probe_map_unknown_number", "probe_pool_stack_doubled",
 	"probe_pool_object_reused", "probe_heap_create_from_array", "probe_heap_duplicate_keys", "probe_heap_by_handle_ops",
 	"probe_timerqueue_equal_times", "probe_timerqueue_getptr_null", "probe_size_over_1000", "probe_mixed_record_sizes",
-	"probe_shrink_reallocated", "probe_drained_elements", NULL
+	"probe_shrink_reallocated", "probe_drained_elements", "probe_typed_iteration", "probe_iteration_visitor_shrinks", NULL
 };
 
 #define AF_SINCE(before) (simalloc_failed != (before))
@@ -106,6 +106,92 @@ ea_check(const char * after)
 	}
 	if (sz > 1000)
 		R->cnt[N_BIG]++;
+}
+
+/* ---- the typed wrappers of elasticarray.h (real code: inline functions), used for iteration ---- */
+struct r3 { uint8_t b[3]; };
+struct r13 { uint8_t b[13]; };
+ELASTICARRAY_DECL(T1LIST, t1list, uint8_t);
+ELASTICARRAY_DECL(T3LIST, t3list, struct r3);
+ELASTICARRAY_DECL(T4LIST, t4list, uint32_t);
+ELASTICARRAY_DECL(T8LIST, t8list, uint64_t);
+ELASTICARRAY_DECL(T13LIST, t13list, struct r13);
+static size_t it_i, it_reclen, it_shrink_at, it_shrink_n;
+static int it_active;
+
+static void
+it_visit(void * p)
+{
+	uint8_t * base;
+	size_t i;
+	int d = simalloc_depth;
+
+	simalloc_depth = 0;
+	if (it_i >= msize / it_reclen)
+		sim_viol("C12.ea.iter", "beyond", "iteration visited record %zu but the ideal array has %zu records of %zu bytes", it_i, msize / it_reclen, it_reclen);
+	LIB_ENTER();
+	base = elasticarray_get(EA, 0, 1);
+	LIB_LEAVE();
+	if ((uint8_t *)p != base + it_i * it_reclen)
+		sim_viol("C12.ea.iter", "pointer", "iteration step %zu was handed a pointer %td bytes into the storage, not %zu", it_i, (uint8_t *)p - base, it_i * it_reclen);
+	for (i = 0; i < it_reclen; i++)
+		if (md[it_i * it_reclen + i] && ((uint8_t *)p)[i] != mv[it_i * it_reclen + i])
+			sim_viol("C12.ea.iter", "content", "iteration step %zu: byte %zu of the record differs from the ideal array", it_i, i);
+	if (it_i == it_shrink_at && it_shrink_n > 0) {
+		/* the visitor drops records from the end of the array it is walking */
+		size_t n = it_shrink_n * it_reclen > msize ? 0 : msize - it_shrink_n * it_reclen;
+		int f0 = simalloc_failed;
+		uint64_t r0 = simalloc_nrefused_shrink;
+
+		LIB_ENTER();
+		elasticarray_shrink(EA, it_shrink_n, it_reclen);
+		LIB_LEAVE();
+		NOTE("  visitor %zu shrinks the array by %zu records", it_i, it_shrink_n);
+		m_resize(n, 0);
+		bound_ok = !(simalloc_nrefused_shrink != r0 || AF_SINCE(f0));
+		R->cnt[N_ITER_SHRINK]++;
+	}
+	it_i++;
+	simalloc_depth = d;
+}
+static void it_v1(uint8_t * p) { it_visit(p); }
+static void it_v3(struct r3 * p) { it_visit(p); }
+static void it_v4(uint32_t * p) { it_visit(p); }
+static void it_v8(uint64_t * p) { it_visit(p); }
+static void it_v13(struct r13 * p) { it_visit(p); }
+
+static void
+ea_iter(size_t a, size_t b, size_t c)
+{
+	static const size_t rls[] = { 1, 3, 4, 8, 13 };
+	size_t n0, expect;
+
+	it_reclen = rls[b % 5];
+	n0 = msize / it_reclen;
+	it_i = 0;
+	it_shrink_n = c;
+	it_shrink_at = (c > 0 && n0 > 0) ? a % n0 : (size_t)(-1);
+	if (it_shrink_at != (size_t)(-1)) {
+		size_t n1 = it_shrink_n > n0 ? 0 : n0 - it_shrink_n;
+
+		expect = it_shrink_at + 1 > n1 ? it_shrink_at + 1 : n1;
+	} else
+		expect = n0;
+	it_active = 1;
+	R->cnt[N_ITER]++;
+	LIB_ENTER();
+	switch (it_reclen) {
+	case 1: t1list_iter((T1LIST)EA, it_v1); break;
+	case 3: t3list_iter((T3LIST)EA, it_v3); break;
+	case 4: t4list_iter((T4LIST)EA, it_v4); break;
+	case 8: t8list_iter((T8LIST)EA, it_v8); break;
+	default: t13list_iter((T13LIST)EA, it_v13); break;
+	}
+	LIB_LEAVE();
+	it_active = 0;
+	TR(0x16, it_reclen, it_i, "iterate as records of %zu bytes: %zu visits", it_reclen, it_i);
+	if (it_i != expect)
+		sim_viol("C12.ea.iter", "count", "iteration over records of %zu bytes made %zu visits, the ideal array gives %zu", it_reclen, it_i, expect);
 }
 
 static void
@@ -647,6 +733,7 @@ static struct el els[MAXEL];
 static int nel;
 static struct ptrheap * H;
 static int in_heap_call;
+static int cmp_wide;	/* comparator returns values other than -1/0/1 */
 
 static int
 h_compar(void * cookie, const void * x, const void * y)
@@ -655,6 +742,13 @@ h_compar(void * cookie, const void * x, const void * y)
 
 	if (cookie != (void *)els)
 		sim_viol("C13.handle", "cookie", "comparison callback with a foreign cookie");
+	if (cmp_wide && a->key != b->key) {
+		/* any negative / positive value means less / greater: return magnitudes other than 1 */
+		uint64_t d = a->key > b->key ? (uint64_t)a->key - (uint64_t)b->key : (uint64_t)b->key - (uint64_t)a->key;
+		int m = (int)(2 + d % 1000003);
+
+		return (a->key > b->key ? m : -m);
+	}
 	return ((a->key > b->key) - (a->key < b->key));
 }
 
@@ -1138,6 +1232,8 @@ engine_gen(struct plan * P, uint64_t seed, struct prng * g)
 	plan_add(P, "knob", "scenario", 1, (int64_t)sc);
 	plan_add(P, "knob", "realloc_moves", 1, (int64_t)prng_chance(g, 60));
 	plan_add(P, "knob", "fill", 1, (int64_t)(prng_chance(g, 50) ? 256 : (prng_chance(g, 50) ? 0xff : 0)));
+	if (sc == 4)
+		plan_add(P, "knob", "cmp_wide", 1, (int64_t)prng_chance(g, 50));
 	prefuse = prng_chance(g, 40) ? (int)prng_n(g, 50) : 0;
 	n = prng_chance(g, 10) ? 200 + (int)prng_n(g, 1500) : 5 + (int)prng_n(g, 80);
 	if (!strcmp(sim_prop, "C14") && n > 60)
@@ -1172,8 +1268,10 @@ engine_gen(struct plan * P, uint64_t seed, struct prng * g)
 				plan_add(P, "step", "shrink", 3, (int64_t)(prng_chance(g, 20) ? prng_n(g, 3000) : prng_n(g, 12)), (int64_t)r, (int64_t)ref);
 			else if (x < 78)
 				plan_add(P, "step", "truncate", 3, (int64_t)0, (int64_t)1, (int64_t)ref);
-			else if (x < 88)
+			else if (x < 84)
 				plan_add(P, "step", "get", 3, (int64_t)prng_n(g, 5000), (int64_t)r, (int64_t)0);
+			else if (x < 88)
+				plan_add(P, "step", "iter", 3, (int64_t)prng_n(g, 5000), (int64_t)prng_n(g, 5), (int64_t)(prng_chance(g, 40) ? 1 + prng_n(g, prng_chance(g, 50) ? 6 : 3000) : 0));
 			else if (x < 95)
 				plan_add(P, "step", "exportdup", 3, (int64_t)0, (int64_t)r, (int64_t)0);
 			else
@@ -1281,6 +1379,7 @@ engine_run(const struct plan * P)
 	if (eq_reclen > 64)
 		eq_reclen = 64;
 	pool_kind = (int)plan_knob(P, "pool", 1);
+	cmp_wide = (int)plan_knob(P, "cmp_wide", 0);
 	if (pool_kind < 0 || pool_kind > 2)
 		pool_kind = 1;
 	pool_osize = pool_kind == 0 ? sizeof(struct o1) : pool_kind == 1 ? sizeof(struct o4) : sizeof(struct o4096);
@@ -1304,7 +1403,13 @@ engine_run(const struct plan * P)
 		case 0:
 			if (!strcmp(l->name, "init"))
 				ea_init(a, b);
-			else
+			else if (!strcmp(l->name, "iter")) {
+				if (EA != NULL) {
+					R->cnt[N_OPS]++;
+					ea_iter(a, b, l->nargs > 2 && l->a[2] > 0 ? (size_t)l->a[2] : 0);
+					ea_check("iter");
+				}
+			} else
 				ea_op(l->name, a, b, ref);
 			break;
 		case 1:
